@@ -16,10 +16,10 @@ import (
 	"fmt"
 	"math/big"
 
+	. "gethverif/harness/hxlib"
 	"github.com/ethereum/go-ethereum/core"
 	"github.com/ethereum/go-ethereum/core/vm"
 	"github.com/ethereum/go-ethereum/log"
-	. "gethverif/harness/hxlib"
 )
 
 func fields(g vm.GasBudget) []Sx {
@@ -508,6 +508,8 @@ func run(c Sx) Result {
 		return runBudget(l)
 	case 1:
 		return runPool(l)
+	case 2:
+		return runTxs(l)
 	}
 	panic("hxlib: unknown case kind")
 }
@@ -844,14 +846,18 @@ func gen(r *Rng, tier string, emit func(Sx)) {
 	for i := 0; i < 2500*scale; i++ {
 		emit(genPool(r))
 	}
+	// blocks of real transactions through core.ApplyMessage (oracle only)
+	for i := 0; i < 1500*scale; i++ {
+		emit(genTxs(r))
+	}
 }
 
 func main() {
 	log.SetDefault(log.NewLogger(log.DiscardHandler()))
 	Main(Family{
-		ID: "C31",
-		Rule: "budget histories (Charge/ChargeExecutionOnly/ChargeExecution/ChargeState/RefundState/DrainExecution/Forward/ForwardAll/Absorb(Exit(nil|revert|halt))/Exit at top) on the real vm.GasBudget: small scope (budgets <= 6, amounts <= 7, <= 6 ops), realistic magnitudes with up to 27 ops and nested calls, E+S just below 2^63, and an adversarial stream of raw non-fresh budgets with boundary values (2^63, 2^64-1) that wraps; gas-pool histories in the Amsterdam and legacy disciplines plus adversarial raw pools. Generator steered by a shadow run so most histories stay within the callers' guards (10% leave them on purpose). Non-trivial: a history of >= 2 ops from a fresh budget that stays within the guards and either spills state gas into execution gas or charges successfully inside/around a nested call; a disciplined pool history with >= 2 charged transactions; distinct = distinct case line.",
-		Gen: gen,
-		Run: run,
+		ID:   "C31",
+		Rule: "budget histories (Charge/ChargeExecutionOnly/ChargeExecution/ChargeState/RefundState/DrainExecution/Forward/ForwardAll/Absorb(Exit(nil|revert|halt))/Exit at top) on the real vm.GasBudget: small scope (budgets <= 6, amounts <= 7, <= 6 ops), realistic magnitudes with up to 27 ops and nested calls, E+S just below 2^63, and an adversarial stream of raw non-fresh budgets with boundary values (2^63, 2^64-1) that wraps; gas-pool histories in the Amsterdam and legacy disciplines plus adversarial raw pools. Generator steered by a shadow run so most histories stay within the callers' guards (10% leave them on purpose). Non-trivial: a history of >= 2 ops from a fresh budget that stays within the guards and either spills state gas into execution gas or charges successfully inside/around a nested call; a disciplined pool history with >= 2 charged transactions; a block in which >= 2 transactions were applied. Third stream (oracle only, no model observable): blocks of 1-6 real transactions (plain transfer, SSTORE set+clear, clearing pre-set slots, infinite loop, SSTORE+REVERT, nested CALL, contract creation, CREATE inside a reverting call; gas limits around the intrinsic cost up to 3M; optional non-zero calldata for the EIP-7623 floor) through core.ApplyMessage with one shared GasPool under Prague and Amsterdam rules. distinct = distinct case line.",
+		Gen:  gen,
+		Run:  run,
 	})
 }
